@@ -57,3 +57,24 @@ fn c19_bss_truncated() {
     core::mem::forget(out);
     core::mem::forget(dec);
 }
+
+// @h name=c19_bss_truncated_resumed props=C19 tier=quick
+/// The shortfall is only reached by the second read of the page (one read per output batch).
+#[kani::proof]
+#[kani::unwind(6)]
+#[kani::stub(alloc::fmt::format, crate::kani_verif_support::stub_format)]
+#[kani::stub(std::backtrace::Backtrace::capture, crate::kani_verif_support::stub_backtrace)]
+#[kani::stub(crate::column::value_reader::ReaderErrorState::set_error_fn, crate::column::value_reader::kani_verif_support_reader::stub_set_error_flag)]
+fn c19_bss_truncated_resumed() {
+    let bytes: [u8; 8] = kani::any();
+    let mut out = ok(Array::new(&DefaultBufferManager, DataType::int32(), 3));
+    let mut dec = ok(ByteStreamSplitDecoder::<4, PlainInt32ValueReader>::try_new(ReadCursor::from_slice(&bytes)));
+    // the page header announces 3 values, the data holds 2: 1 value, then 2 more
+    let first = is_ok_forget(dec.read(Definitions::NoDefinitions, &mut out, 0, 1)) && !error_reported();
+    assert!(first, "the first value is there");
+    let second = is_ok_forget(dec.read(Definitions::NoDefinitions, &mut out, 1, 2)) && !error_reported();
+    kani::cover!(!second);
+    assert!(!second, "more values requested than remain in the streams is an error");
+    core::mem::forget(out);
+    core::mem::forget(dec);
+}
